@@ -82,9 +82,12 @@ N2(x) == Bcd2(x)
 In(v) == [dom |-> "in", vals |-> {v}]
 Out(z) == [dom |-> "out", vals |-> {z}]
 DontCare == [dom |-> "any", vals |-> {}]
+\* a non-decimal nibble in a BCD field is no encoding of anything - not of a value outside the domain either: such a field
+\* has no acceptable value, the call can only fail (C03's "malformed field ... makes the call fail")
+NotBcd == [dom |-> "out", vals |-> {}]
 
 DecDate(b) ==
-  IF ~BcdOK(b) THEN Out(ZeroDate)
+  IF ~BcdOK(b) THEN NotBcd
   ELSE LET y == 100 * N2(b[1]) + N2(b[2]) m == N2(b[3]) d == N2(b[4]) IN
        IF y = 0 /\ m = 0 /\ d = 0 THEN In(ZeroDate)
        ELSE IF y = 1 /\ m = 1 /\ d = 1 THEN [dom |-> "in", vals |-> {ZeroDate, Date(1, 1, 1)}]
@@ -93,7 +96,7 @@ DecDate(b) ==
 
 DecDateTime(b) ==
   IF \A i \in 1..7 : b[i] = 0 THEN In(ZeroDT)
-  ELSE IF ~BcdOK(b) THEN Out(ZeroDT)
+  ELSE IF ~BcdOK(b) THEN NotBcd
   ELSE LET y == 100 * N2(b[1]) + N2(b[2]) m == N2(b[3]) d == N2(b[4])
            h == N2(b[5]) mi == N2(b[6]) s == N2(b[7]) IN
        IF y = 1 /\ m = 1 /\ d = 1 /\ h = 0 /\ mi = 0 /\ s = 0 THEN [dom |-> "in", vals |-> {ZeroDT, DT(1, 1, 1, 0, 0, 0)}]
@@ -103,17 +106,18 @@ DecDateTime(b) ==
 \* two-digit year: 00..68 -> 20yy; 69..99 is a documented don't-care (pivot not part of the protocol)
 DecSysDate(b) ==
   IF \A i \in 1..3 : b[i] = 0 THEN In(ZeroDate)
-  ELSE IF ~BcdOK(b) THEN Out(ZeroDate)
+  ELSE IF ~BcdOK(b) THEN NotBcd
   ELSE LET yy == N2(b[1]) m == N2(b[2]) d == N2(b[3]) IN
        IF yy >= 69 THEN (IF ValidYMD(1900 + yy, m, d) THEN DontCare ELSE Out(ZeroDate))
        ELSE IF ValidYMD(2000 + yy, m, d) THEN In(Date(2000 + yy, m, d)) ELSE Out(ZeroDate)
 
 ZeroClock == [h |-> 0, mi |-> 0, s |-> 0]
 DecSysTime(b) ==
-  IF ~BcdOK(b) THEN Out(ZeroClock)
+  IF ~BcdOK(b) THEN NotBcd
   ELSE LET h == N2(b[1]) mi == N2(b[2]) s == N2(b[3]) IN
        IF ValidClock(h, mi, s) THEN In([h |-> h, mi |-> mi, s |-> s]) ELSE Out(ZeroClock)
 
+\* (HH:mm is the exception: the protocol's "no time" and a garbled one are both reported as 00:00 or refused - C02's rule)
 DecHHmm(b) ==
   IF ~BcdOK(b) THEN Out(HM(0, 0))
   ELSE LET h == N2(b[1]) mi == N2(b[2]) IN
